@@ -100,9 +100,11 @@ func condScenario(mk func() *qa, k int, prod [][]int, closer, anyway, prior bool
 		total = append(total, p...)
 	}
 	name := fmt.Sprintf("%s/consumers=%d/producers=%v/close=%v/anyway=%v/prior=%v/closeAfterProd=%v", probe.name, k, prod, closer, anyway, prior, closeAfterProd)
-	pb := [2]int{2, 3}
+	pb := [2]int{3, 4}
 	if k+len(prod) >= 5 {
 		pb = [2]int{1, 2}
+	} else if k+len(prod) >= 4 {
+		pb = [2]int{2, 3}
 	}
 	return &mc.Scenario{
 		Name: name,
@@ -204,7 +206,7 @@ func priqScenario(capacity int, prod [][]ent, consumers int) *mc.Scenario {
 	}
 	return &mc.Scenario{
 		Name: name,
-		PB:   [2]int{2, 3},
+		PB:   [2]int{3, 4},
 		Main: func(w *mc.World) {
 			x := &st{q: priq.NewPriQueue(capacity)}
 			w.Data["st"] = x
